@@ -1,6 +1,6 @@
 (* Lemmas about RelEdit.v (C11), part 6: histories on constructor-built fields, with the re-read
    of the printed text after the last step (hence, the histories being arbitrary, after every step). *)
-From V.model Require Import Base RelLex RelParse RelEdit RelEditSpec.
+From V.model Require Import Base RelLex RelParse RelEdit RelEditSpec RelEditTree.
 From V.proofs Require Import BaseP RelEditP RelEditStP RelEditHistP RelEditReparseP.
 Set Default Timeout 60.
 
